@@ -64,8 +64,25 @@ class C16Bounded(Bounded):
         fails, samples = [], []
         envs = [None, "0", "false", "no", "off", ""]
         saved_env = {k: os.environ.get(k) for k in ("PYSIGMA_ALLOW_EXTERNAL_SOURCES", "PYSIGMA_ALLOW_VARS_EXECUTION")}
+        # what happened earlier in the process grants nothing either: before the default load, a load WITH every opt-in argument
+        # succeeds / fails in its transformation, post-processing or finalizer section (an application handling a broken trusted file)
+        nestok = {"type": "nest", "items": [{"type": "value_placeholders", "include": ["zz"]}]}
+        priors = {"ok": {"transformations": [nestok], "postprocessing": [{"type": "nest", "items": []}]},
+                  "fail-t": {"transformations": [nestok, {"type": "no_such_type"}]},
+                  "fail-t-nested": {"transformations": [{"type": "nest", "items": [{"type": "no_such_type"}]}]},
+                  "fail-p": {"transformations": [nestok], "postprocessing": [{"type": "no_such_type"}]},
+                  "fail-f": {"transformations": [nestok], "finalizers": [{"type": "no_such_type"}]}}
+
+        def prior_load(which):
+            try:
+                ProcessingPipeline.from_dict(copy.deepcopy(priors[which]), allow_external_sources=True, allow_template_vars=True, vars_allowed_paths=(root,))
+            except SigmaError:
+                pass
         for di, d in enumerate(docs):
-            for mask, envv in [(m, None) for m in masks] + [(m, e) for m in (0, 31) for e in envs[1:]]:
+            for mask, envv in [(m, None) for m in masks] + [(m, e) for m in (0, 31) for e in envs[1:]] + [(m, ("after", w)) for m in (0, 31) for w in priors]:
+                prior = None
+                if isinstance(envv, tuple):
+                    prior, envv = envv[1], None
                 for k in saved_env:         # a switched-off spelling of the documented variables grants nothing either
                     if envv is None:
                         os.environ.pop(k, None)
@@ -79,6 +96,8 @@ class C16Bounded(Bounded):
                             os.unlink(marker + m)
                     dd = inject(copy.deepcopy(d), mask)
                     outcome = "ok"
+                    if prior:
+                        prior_load(prior)
                     try:
                         if how == "dict":
                             p = ProcessingPipeline.from_dict(dd)
@@ -97,7 +116,7 @@ class C16Bounded(Bounded):
                     if "TOPSECRET" in outcome:
                         bad.append("secret file content in query")
                     if bad:
-                        fails.append({"text": f"document {di} ({how}, opt-in keys injected at depth mask {mask}, environment variables {'unset' if envv is None else '= ' + repr(envv)}) loaded with default arguments caused {bad}; outcome {outcome}", "input": [di, mask, how, envv]})
+                        fails.append({"text": f"document {di} ({how}, opt-in keys injected at depth mask {mask}, environment variables {'unset' if envv is None else '= ' + repr(envv)}{', after an opted-in load of kind ' + prior if prior else ''}) loaded with default arguments caused {bad}; outcome {outcome}", "input": [di, mask, how, envv, prior]})
                     if len(samples) < 4 and mask == 6 and how == "dict":
                         samples.append({"document": json.dumps(dd)[:300], "outcome": outcome})
         for k, v in saved_env.items():
@@ -118,5 +137,5 @@ class C16Bounded(Bounded):
             if ran != inside:
                 fails.append({"text": f"vars file {vf} with allowed base {os.path.dirname(varsfile)}: executed={ran}, expected {inside}", "input": [vf]})
         shutil.rmtree(root, ignore_errors=True)
-        return {"evaluations": ev, "distinct_nontrivial": nontriv, "failures": fails[:20], "bound": f"{len(docs)} item shapes x {len(masks)} injection-depth masks x (from_dict, from_yaml), default arguments, environment variables unset; masks 0 and 31 also with the variables set to '0', 'false', 'no', 'off', ''",
+        return {"evaluations": ev, "distinct_nontrivial": nontriv, "failures": fails[:20], "bound": f"{len(docs)} item shapes x {len(masks)} injection-depth masks x (from_dict, from_yaml), default arguments, environment variables unset; masks 0 and 31 also with the variables set to '0', 'false', 'no', 'off', '', and after an earlier load with every opt-in argument that succeeded / failed in each section",
                 "rule": "distinct (document, mask, loader) triples; non-trivial = at least one injected key", "samples": samples, "exhaustive": tier != "quick"}
